@@ -64,40 +64,44 @@ package server
 
 //@ func (*SemanticTokenEncoder).Encode
 //@   props C17 C06
-//@   requires e != nil && (line > e.lastLine || (line == e.lastLine && col >= e.lastCol))
+//@   requires e != nil
 //@   ensures [shape] len(result) == 5 && fresh(result)
-//@   ensures [delta_line] result[0] == line - old(e.lastLine)
-//@   ensures [delta_col] result[1] == ite(line == old(e.lastLine), col - old(e.lastCol), col)
+//@   ensures [delta_line] line >= old(e.lastLine) ==> result[0] == line - old(e.lastLine)
+//@   ensures [delta_col] (line != old(e.lastLine) || col >= old(e.lastCol)) ==> result[1] == ite(line == old(e.lastLine), col - old(e.lastCol), col)
 //@   ensures [rest] result[2] == length && result[3] == tokenType && result[4] == modifiers
 //@   ensures [state] e.lastLine == line && e.lastCol == col
 //@   modifies e.lastLine, e.lastCol
 
 //@ func computeSemanticTokensEdits
-//@   props C17
+//@   props C17 C06
 //@   requires len(oldData) < 4294967296
 //@   ensures [same] len(oldData) == len(newData) && (forall k int :: 0 <= k && k < len(oldData) ==> oldData[k] == newData[k]) ==> len(result) == 0
 //@   ensures [replace] len(oldData) < 4294967296 && len(result) != 0 ==> len(result) == 1 && result[0].Start == 0 && result[0].DeleteCount == len(oldData) && result[0].Data == newData
 //@   ensures [difflen] len(oldData) != len(newData) ==> len(result) == 1
 //@   ensures [diffelem] len(oldData) == len(newData) && len(result) == 0 ==> (forall k int :: 0 <= k && k < len(oldData) ==> oldData[k] == newData[k])
+//@   ensures [diffelem_seq] len(result) == 0 ==> len(oldData) == len(newData) && (forall k int :: {seq(oldData)[k]} 0 <= k && k < len(oldData) ==> seq(oldData)[k] == seq(newData)[k])
 //@   loop 1 invariant 0 - 1 <= rangeindex && rangeindex <= len(oldData) - 1 && len(oldData) == len(newData) && same && (forall k int :: 0 <= k && k <= rangeindex ==> oldData[k] == newData[k])
+//@   loop 1 invariant forall k int :: {seq(oldData)[k]} 0 <= k && k <= rangeindex ==> seq(oldData)[k] == seq(newData)[k]
 //@   loop 1 decreases len(oldData) - rangeindex
 
 //@ func mapTokenType
-//@   props C17
+//@   props C17 C06
 //@   ensures [legend] result0 >= 0 && result0 <= 12
 
 //@ specdef prevLine(ts []semanticToken, i int) int := ite(i > 0, ts[i - 1].line, 0)
 //@ specdef prevCol(ts []semanticToken, i int) int := ite(i > 0, ts[i - 1].col, 0)
 //@ specdef encAt(ts []semanticToken, j int) int := ite(j % 5 == 0, ts[j / 5].line - prevLine(ts, j / 5), ite(j % 5 == 1, ite(ts[j / 5].line == prevLine(ts, j / 5), ts[j / 5].col - prevCol(ts, j / 5), ts[j / 5].col), ite(j % 5 == 2, ts[j / 5].length, ite(j % 5 == 3, ts[j / 5].tokenType, ts[j / 5].modifiers))))
 
+//@ specdef ordTokS(ts []semanticToken) bool := forall i int :: 0 < i && i < len(ts) ==> ts[i - 1].line < ts[i].line || (ts[i - 1].line == ts[i].line && ts[i - 1].col <= ts[i].col)
+
 //@ func encodeTokens
 //@   props C17 C06
-//@   requires ordTok(tokens)
+//@   functional encOf
 //@   ensures [len] len(result) == 5 * len(tokens)
-//@   ensures [decode] forall j int :: 0 <= j && j < len(result) ==> result[j] == encAt(tokens, j)
+//@   ensures [C17:decode] ordTokS(tokens) ==> (forall j int :: 0 <= j && j < len(result) ==> result[j] == encAt(tokens, j))
 //@   loop 1 invariant 0 - 1 <= rangeindex && rangeindex <= len(tokens) - 1 && encoder != nil && fresh(encoder) && len(data) == 5 * (rangeindex + 1)
 //@   loop 1 invariant encoder.lastLine == prevLine(tokens, rangeindex + 1) && encoder.lastCol == prevCol(tokens, rangeindex + 1)
-//@   loop 1 invariant forall j int :: 0 <= j && j < len(data) ==> data[j] == encAt(tokens, j)
+//@   loop 1 invariant ordTokS(tokens) ==> (forall j int :: 0 <= j && j < len(data) ==> data[j] == encAt(tokens, j))
 //@   loop 1 decreases len(tokens) - rangeindex
 
 //@ func astRangeToProtocol
@@ -130,6 +134,7 @@ package server
 
 //@ func tokenizeForSemantics
 //@   props C17 C06
+//@   functional semtok
 //@   requires len(content) < 4294967294
 //@   ensures [legend] forall i int :: 0 <= i && i < len(result) ==> result[i].tokenType <= 12
 //@   loop 1 invariant lexer != nil && fresh(lexer) && LexInv(lexer) && Pos16(lexer) && lexer.input == content
@@ -182,3 +187,100 @@ package server
 // The statement of C01 is about the wire: a change that carries a range key is a ranged change, whatever the range is.
 // Assumed contract of the protocol decoder: a change without a range key decodes to the zero Range.
 //@ lemma [C01] wire_step(c string, hasRange bool, ch protocol.TextDocumentContentChangeEvent) := (!hasRange ==> (ch.Range.Start.Line == 0 && ch.Range.Start.Character == 0 && ch.Range.End.Line == 0 && ch.Range.End.Character == 0)) ==> docStep(c, ch) == ite(hasRange, applied(c, ch.Range.Start.Line, ch.Range.Start.Character, ch.Range.End.Line, ch.Range.End.Character, ch.Text), ch.Text)
+
+// ---- C17: range filter, result cache and the delta protocol ----
+
+//@ specdef keep(t semanticToken, lo int, hi int) bool := t.line >= lo && t.line <= hi
+//@ specdef flt(ts []semanticToken, i int, lo int, hi int) int := ite(i <= 0, 0, flt(ts, i - 1, lo, hi) + ite(keep(ts[i - 1], lo, hi), 1, 0))
+//@ lemma flt_nonneg(ts []semanticToken, i int, lo int, hi int) induct i := {flt(ts, i, lo, hi)} flt(ts, i, lo, hi) >= 0 && flt(ts, i, lo, hi) <= ite(i <= 0, 0, i)
+
+//@ lemma flt_mono(ts []semanticToken, i int, j int, lo int, hi int) induct j := {flt(ts, i, lo, hi); flt(ts, j, lo, hi)} 0 <= i && i <= j ==> flt(ts, i, lo, hi) <= flt(ts, j, lo, hi)
+
+//@ lemma flt_lt(ts []semanticToken, j int, i int, lo int, hi int) induct i := {flt(ts, j, lo, hi); flt(ts, i, lo, hi)} 0 <= j && j < i && keep(ts[j], lo, hi) ==> flt(ts, j, lo, hi) < flt(ts, i, lo, hi)
+
+//@ func filterTokensByRange
+//@   props C17 C06
+//@   functional filterOf
+//@   ensures [C17:filter_len] len(result) == flt(tokens, len(tokens), r.Start.Line, r.End.Line)
+//@   ensures [C17:filter_sound] forall k int :: 0 <= k && k < len(result) ==> keep(result[k], r.Start.Line, r.End.Line)
+//@   ensures [C17:filter_complete] forall j int :: {tokens[j]} 0 <= j && j < len(tokens) && keep(tokens[j], r.Start.Line, r.End.Line) ==> result[flt(tokens, j, r.Start.Line, r.End.Line)] == tokens[j]
+//@   loop 1 invariant 0 - 1 <= rangeindex && rangeindex <= len(tokens) - 1 && len(filtered) == flt(tokens, rangeindex + 1, r.Start.Line, r.End.Line)
+//@   loop 1 invariant forall k int :: 0 <= k && k < len(filtered) ==> keep(filtered[k], r.Start.Line, r.End.Line)
+//@   loop 1 invariant forall j int :: {tokens[j]} 0 <= j && j <= rangeindex && keep(tokens[j], r.Start.Line, r.End.Line) ==> filtered[flt(tokens, j, r.Start.Line, r.End.Line)] == tokens[j]
+//@   loop 1 decreases len(tokens) - rangeindex
+
+//@ pred CacheOK(c) := c != nil && c.cache != nil && (forall u protocol.DocumentURI :: {c.cache[u]} has(c.cache, u) ==> c.cache[u] != nil)
+
+//@ func (*semanticTokensCache).get
+//@   props C17
+//@   effects none
+//@   requires CacheOK(c)
+//@   ensures [get] result1 == has(c.cache, uri) && result0 == c.cache[uri]
+
+//@ func (*semanticTokensCache).set
+//@   props C17
+//@   requires CacheOK(c)
+//@   ensures [ok] CacheOK(c)
+//@   ensures [entry] has(c.cache, uri) && fresh(c.cache[uri]) && c.cache[uri].resultID == result && c.cache[uri].data == data && c.cache[uri].tokens == tokens
+//@   ensures [id] result == fmtint(c.resultID) && c.resultID == old(c.resultID) + 1
+//@   ensures [others] forall u protocol.DocumentURI :: {c.cache[u]} u != uri ==> c.cache[u] == old(c.cache[u]) && (has(c.cache, u) <==> old(has(c.cache, u)))
+//@   modifies c.resultID, c.cache[*]
+
+//@ func (*semanticTokensCache).delete
+//@   props C17
+//@   effects noalloc
+//@   requires CacheOK(c)
+//@   ensures [ok] CacheOK(c)
+//@   ensures [gone] !has(c.cache, uri)
+//@   ensures [others] forall u protocol.DocumentURI :: {c.cache[u]} u != uri ==> c.cache[u] == old(c.cache[u]) && (has(c.cache, u) <==> old(has(c.cache, u)))
+//@   modifies c.cache[*]
+
+//@ specdef hasDoc(s *Server, u protocol.DocumentURI) bool := smhas(s.documents, u) && typeis(smget(s.documents, u), string)
+//@ specdef docOf(s *Server, u protocol.DocumentURI) string := as(smget(s.documents, u), string)
+//@ pred DocSmall(s, u) := hasDoc(s, u) ==> len(docOf(s, u)) < 4294967294
+//@ pred Live(s, u) := hasDoc(s, u) && docOf(s, u) != ""
+
+// A full request answers with the encoding of the tokens of the CURRENT text and records exactly that answer under a new result id.
+//@ func (*Server).SemanticTokensFull
+//@   props C17 C01
+//@   requires s != nil && params != nil && tokenCache != nil && CacheOK(tokenCache) && DocSmall(s, params.TextDocument.URI)
+//@   ensures [C17:full_data] result0 != nil && (Live(s, params.TextDocument.URI) ==> seq(result0.Data) == encOf(semtok(docOf(s, params.TextDocument.URI))))
+//@   ensures [C17:full_empty] !Live(s, params.TextDocument.URI) ==> len(result0.Data) == 0
+//@   ensures [C17:full_cache] Live(s, params.TextDocument.URI) ==> has(tokenCache.cache, params.TextDocument.URI) && tokenCache.cache[params.TextDocument.URI].resultID == result0.ResultID && tokenCache.cache[params.TextDocument.URI].data == result0.Data && result0.ResultID == fmtint(tokenCache.resultID) && tokenCache.resultID == old(tokenCache.resultID) + 1
+//@   ensures [ok] CacheOK(tokenCache)
+//@   modifies tokenCache.resultID, tokenCache.cache[*]
+
+// A range request answers with the encoding of the current tokens restricted to the requested lines; it neither reads nor writes the cache.
+//@ func (*Server).SemanticTokensRange
+//@   props C17 C01
+//@   requires s != nil && params != nil && DocSmall(s, params.TextDocument.URI)
+//@   ensures [C17:range_data] result0 != nil && (Live(s, params.TextDocument.URI) ==> seq(result0.Data) == encOf(filterOf(semtok(docOf(s, params.TextDocument.URI)), params.Range)))
+//@   ensures [C17:range_empty] !Live(s, params.TextDocument.URI) ==> len(result0.Data) == 0
+
+// A delta request. Ghost client state: clientData is the array the client holds under the id it sends
+// (params.PreviousResultID). Link: if the cache entry of this document carries that id, it holds exactly that array.
+// Every answer leaves the client, after applying it, with the encoding of the tokens of the CURRENT text, and records
+// that array under a new id (so Link holds again for the next request, whatever id the client sends then).
+//@ func (*Server).SemanticTokensFullDelta
+//@   props C17 C01
+//@   ghost clientData []uint32
+//@   requires s != nil && params != nil && tokenCache != nil && CacheOK(tokenCache) && DocSmall(s, params.TextDocument.URI)
+//@   requires has(tokenCache.cache, params.TextDocument.URI) ==> len(tokenCache.cache[params.TextDocument.URI].data) < 4294967296
+//@   requires has(tokenCache.cache, params.TextDocument.URI) && tokenCache.cache[params.TextDocument.URI].resultID == params.PreviousResultID ==> seq(tokenCache.cache[params.TextDocument.URI].data) == clientData
+//@   ensures [C17:delta_full] typeis(result0, "*protocol.SemanticTokens") && Live(s, params.TextDocument.URI) ==> seq(as(result0, "*protocol.SemanticTokens").Data) == encOf(semtok(docOf(s, params.TextDocument.URI))) && tokenCache.cache[params.TextDocument.URI].resultID == as(result0, "*protocol.SemanticTokens").ResultID && tokenCache.cache[params.TextDocument.URI].data == as(result0, "*protocol.SemanticTokens").Data
+//@   ensures [C17:delta_kind] typeis(result0, "*protocol.SemanticTokens") || typeis(result0, "*protocol.SemanticTokensDelta")
+//@   ensures [C17:delta_only_current] typeis(result0, "*protocol.SemanticTokensDelta") ==> Live(s, params.TextDocument.URI) && old(has(tokenCache.cache, params.TextDocument.URI)) && old(tokenCache.cache[params.TextDocument.URI].resultID) == params.PreviousResultID
+//@   ensures [C17:delta_noedit] typeis(result0, "*protocol.SemanticTokensDelta") && len(as(result0, "*protocol.SemanticTokensDelta").Edits) == 0 ==> len(clientData) == len(encOf(semtok(docOf(s, params.TextDocument.URI)))) && (forall k int :: 0 <= k && k < len(clientData) ==> clientData[k] == encOf(semtok(docOf(s, params.TextDocument.URI)))[k])
+//@   ensures [C17:delta_replace] typeis(result0, "*protocol.SemanticTokensDelta") && len(as(result0, "*protocol.SemanticTokensDelta").Edits) != 0 ==> len(as(result0, "*protocol.SemanticTokensDelta").Edits) == 1 && as(result0, "*protocol.SemanticTokensDelta").Edits[0].Start == 0 && as(result0, "*protocol.SemanticTokensDelta").Edits[0].DeleteCount == len(clientData) && seq(as(result0, "*protocol.SemanticTokensDelta").Edits[0].Data) == encOf(semtok(docOf(s, params.TextDocument.URI)))
+//@   ensures [C17:delta_cache] typeis(result0, "*protocol.SemanticTokensDelta") ==> tokenCache.cache[params.TextDocument.URI].resultID == as(result0, "*protocol.SemanticTokensDelta").ResultID && seq(tokenCache.cache[params.TextDocument.URI].data) == encOf(semtok(docOf(s, params.TextDocument.URI)))
+//@   ensures [C17:delta_newid] Live(s, params.TextDocument.URI) ==> tokenCache.resultID == old(tokenCache.resultID) + 1 && tokenCache.cache[params.TextDocument.URI].resultID == fmtint(tokenCache.resultID)
+//@   ensures [C17:delta_others] forall u protocol.DocumentURI :: {tokenCache.cache[u]} u != params.TextDocument.URI ==> tokenCache.cache[u] == old(tokenCache.cache[u])
+//@   ensures [ok] CacheOK(tokenCache)
+//@   modifies tokenCache.resultID, tokenCache.cache[*]
+
+//@ func (*Server).DidClose
+//@   props C01 C17
+//@   requires s != nil && params != nil && tokenCache != nil && CacheOK(tokenCache)
+//@   ensures [C01:closed] !smhas(s.documents, params.TextDocument.URI)
+//@   ensures [C17:cache_dropped] !has(tokenCache.cache, params.TextDocument.URI)
+//@   modifies s.documents, tokenCache.cache[*]
